@@ -1,7 +1,7 @@
 (** C12 - completeness of encrypted transfers and secret-to-public transfers, by composition of
     C07 ([enc_trans_complete_], [prove_verify_complete_]) and C11 ([range_complete_in_range_p]),
     and the exact relation asserted by the [EncTrans] statement that [gen_enc_trans_proof_info] builds. *)
-From Coq Require Import ZArith NArith List Lia Bool String InitialRing Field Ring Setoid.
+From Coq Require Import ZArith NArith List Lia Bool InitialRing Field Ring Setoid.
 From CB Require Import Crypto.Alg Crypto.Transcript Crypto.TranscriptProofs Crypto.SigmaGeneric Crypto.SigmaCodec
   Crypto.Sigma_dlog Crypto.Sigma_com_eq Crypto.Sigma_enc_trans Crypto.Chunks Crypto.ChunksProofs Crypto.ElGamalBsgs
   Crypto.BpAlg Crypto.Ipa Crypto.RangeProof Crypto.BpTheorems Crypto.EncTransfer.
@@ -71,7 +71,7 @@ Section Proofs.
     <-> Forall2 (fun c w => c = encrypt_exp g h pk (fst w) (snd w)) cs ws.
   Proof.
     induction cs as [|c cs IH]; intros ws; cbn [map]; split; intros F; inversion F; subst; constructor;
-      try (apply com_eq_rel_enc; assumption); try (apply IH; assumption).
+      try (apply com_eq_rel_enc; (assumption || reflexivity)); try (apply IH; assumption).
   Qed.
 
   (** witness (sk, (a_j, r_j)_j, (s'_j, r'_j)_j): the sender key is sk*g, every A_j is the encryption
@@ -192,7 +192,7 @@ Section Proofs.
       /\ enc_list (td_transfer td) = encrypt_chunks g h pk_r [a0; a1] (tr_A rnd)
       /\ enc_list (td_remaining td) = encrypt_chunks g h (sk *: g) [r0; r1] (tr_S rnd).
   Proof.
-    intros Hs Ha Hbal LA LS Hsig HrA HrS HcA HcS HG HH.
+    intros Hs64 Ha Hbal LA LS Hsig HrA HrS HcA HcS HG HH.
     destruct (chunks32_sum a ltac:(lia)) as (a0 & a1 & Ea & Ba0 & Ba1 & Sa).
     destruct (chunks32_sum (s - a) ltac:(lia)) as (r0 & r1 & Er & Br0 & Br1 & Sr).
     destruct rnd as [kA kS sg bpa bps]. cbn [tr_A tr_S tr_sigma tr_bp_a tr_bp_s] in *.
@@ -213,9 +213,9 @@ Section Proofs.
     cbn [encrypt_chunks map2] in *.
     eexists. exists a0, a1, r0, r1. split; [reflexivity|].
     split.
-    { unfold verify_transfer_data, verify_enc_trans. cbn [td_remaining td_transfer td_accounting td_bp_transfer td_bp_remaining enc_list fst snd].
+    { unfold verify_transfer_data, verify_enc_trans, enc_list. cbn [td_remaining td_transfer td_accounting td_bp_transfer td_bp_remaining enc_list fst snd].
       rewrite Hv. cbn [fst negb]. cbn [map snd] in BA, BS |- *. rewrite BA, BS. reflexivity. }
-    cbn [td_index td_transfer td_remaining enc_list fst snd]. repeat split; assumption || reflexivity.
+    unfold enc_list. cbn [td_index td_transfer td_remaining fst snd]. repeat split; assumption || reflexivity.
   Qed.
 
   (** ** sec_to_pub_complete *)
@@ -232,7 +232,7 @@ Section Proofs.
       /\ (r0 + 2 ^ 32 * r1 = s - a)%N
       /\ enc_list (sd_remaining sd) = encrypt_chunks g h (sk *: g) [r0; r1] (sr_S rnd).
   Proof.
-    intros Hs Ha Hbal LS Hsig HrS HcS HG HH.
+    intros Hs64 Ha Hbal LS Hsig HrS HcS HG HH.
     destruct (chunks32_sum (s - a) ltac:(lia)) as (r0 & r1 & Er & Br0 & Br1 & Sr).
     destruct rnd as [kS sg bps]. cbn [sr_S sr_sigma sr_bp_s] in *.
     destruct kS as [|k2 [|k3 [|? ?]]]; try discriminate LS.
@@ -250,10 +250,10 @@ Section Proofs.
     cbn [encrypt_chunks map2] in *.
     eexists. exists r0, r1. split; [reflexivity|].
     split.
-    { unfold verify_sec_to_pub_transfer_data, verify_sec_to_pub_trans.
+    { unfold verify_sec_to_pub_transfer_data, verify_sec_to_pub_trans, enc_list.
       cbn [sd_remaining sd_transfer_amount sd_accounting sd_bp_remaining enc_list fst snd].
       rewrite Hv. cbn [fst negb]. cbn [map snd] in BS |- *. rewrite BS. reflexivity. }
-    cbn [sd_index sd_transfer_amount sd_remaining enc_list fst snd]. repeat split; assumption || reflexivity.
+    unfold enc_list. cbn [sd_index sd_transfer_amount sd_remaining fst snd]. repeat split; assumption || reflexivity.
   Qed.
 
   (** ** a transfer exceeding the balance is not produced (by the models of the real entry points) *)
